@@ -4,13 +4,21 @@
 -/
 import Btcdeb
 import Driver.Tce
+import Driver.Tap
+import Driver.Sighash
 import Driver.Spend
 import Driver.Pretend
+import Driver.Listing
+import Driver.Tf
 open Btcdeb
 namespace Driver
 
 def extraCmds : List (String × (Bool → List String → String)) :=
-  [ ("TCE", cmdTce), ("PRUN", cmdPrun),
-    ("SPEND", fun spec a => if spec then cmdSpendSpec a else cmdSpendModel a) ]
+  [ ("TCE", cmdTce), ("TAP", cmdTap), ("TAPARGS", cmdTapArgs),
+    ("SIGHASH", cmdSighash), ("PRECOMP", cmdPrecomp), ("CHECKSIGTX", cmdChecksigTx), ("CHECKLOCK", cmdChecklock),
+    ("INSTTXDATA", cmdInstTxData), ("CALCSIGHASH", cmdCalcSighash), ("PRUN", cmdPrun),
+    ("SPEND", fun spec a => if spec then cmdSpendSpec a else cmdSpendModel a),
+    ("LISTING", cmdListing),
+    ("TF", cmdTf), ("INLINE", cmdInline) ]
 
 end Driver
